@@ -416,12 +416,18 @@ def envXFF : Bytes := envName kXFF
 def envXFP : Bytes := envName kXFP
 def envXFH : Bytes := envName kXFH
 
-/-- `for field, val := range r.Header { env["HTTP_"+name] = strings.Join(val, ", ") }`: every field whose
-    CGI name is `name` writes the variable, Go's map order decides which one writes last — the values the
-    variable CAN take, in header order (`[]` = the variable is not set) -/
+/-- a field name without '_' and ' ' (the spelling whose CGI name is not ambiguous) -/
+def hyphenSpelled (field : Bytes) : Bool := !(field.contains 95 || field.contains 32)
+
+/-- the value a field contributes: `strings.Join(val, ", ")` -/
+def envValueOf (e : Bytes × Option (List Bytes)) : Bytes :=
+  joinWith commaSpace (match e.2 with | some vs => vs | none => [])
+
+/-- the loop at the end of `buildEnv`: every field spelled with hyphens only whose CGI name is `name` writes
+    the variable (`if strings.ContainsAny(field, "_ ") { continue }`: a field spelled with '_' or ' ' is not
+    passed on, its CGI name would be ambiguous) — the values the variable CAN take (`[]` = not set) -/
 def envCandidates (h : Header) (name : Bytes) : List Bytes :=
-  (h.filter (fun e => envName e.1 = name)).map
-    (fun e => joinWith commaSpace (match e.2 with | some vs => vs | none => []))
+  (h.filter (fun e => envName e.1 = name && hyphenSpelled e.1)).map envValueOf
 
 /-- what the FastCGI application can be told -/
 structure FcgiEnv where
